@@ -40,7 +40,7 @@ RULE = ("ordering: sizes 0..7 x {plain,total,smart} x plant x knuth {0,2,3} x bo
 ASSUMPTIONS = ["graph arguments are cnfgen Graph/DirectedGraph/BipartiteGraph objects built through add_edge "
                "(networkx inputs go through normalize, property C16/C14)"]
 NOTES = ["oracle verdicts: truth table <= {} variables, DPLL <= {} variables with node budget {}".format(
-    TT_VARS, DPLL_VARS, DPLL_BUDGET)]
+    TT_VARS, DPLL_VARS, DPLL_BUDGET), "satisfiability verdicts of the oracle: none yet"]
 
 
 # ------------------------------------------------------------------ helpers
@@ -59,8 +59,10 @@ def as_clauses(F):
 
 
 def dpll(clauses, nvars, budget):
-    """returns True (sat) / False (unsat) / None (budget exceeded). Plain DPLL with unit propagation."""
+    """returns (True, model) / (False, None) / (None, None) when the node budget is exceeded.
+    Plain DPLL with unit propagation; `model` is the list of true variables."""
     state = {"nodes": 0}
+    budget = min(budget, max(300, 3000000 // (sum(len(c) for c in clauses) + 1)))   # bound the work, not only the nodes
 
     def simplify(cls, lit):
         out = []
@@ -74,7 +76,7 @@ def dpll(clauses, nvars, budget):
             out.append(c)
         return out
 
-    def solve(cls):
+    def solve(cls, trail):
         state["nodes"] += 1
         if state["nodes"] > budget:
             raise TimeoutError
@@ -82,46 +84,62 @@ def dpll(clauses, nvars, budget):
             unit = None
             for c in cls:
                 if len(c) == 0:
-                    return False
+                    return None
                 if len(c) == 1:
                     unit = c[0]
                     break
             if unit is None:
                 break
+            trail = trail + [unit]
             cls = simplify(cls, unit)
             if cls is None:
-                return False
+                return None
         if not cls:
-            return True
-        # branch on the first literal of a shortest clause
+            return trail
         c = min(cls, key=len)
         l = c[0]
         for choice in (l, -l):
             nxt = simplify(cls, choice)
-            if nxt is not None and solve(nxt):
-                return True
-        return False
+            if nxt is not None:
+                r = solve(nxt, trail + [choice])
+                if r is not None:
+                    return r
+        return None
 
     cls = [sorted(set(c), key=abs) for c in clauses]
     if any(len(c) == 0 for c in cls):
-        return False
-    # drop tautologies
-    cls = [c for c in cls if not any(-l in c for l in c)]
+        return False, None
+    cls = [c for c in cls if not any(-l in c for l in c)]   # drop tautologies
     try:
-        return solve(cls)
+        r = solve(cls, [])
     except (TimeoutError, RecursionError):
-        return None
+        return None, None
+    if r is None:
+        return False, None
+    return True, sorted(l for l in r if l > 0)
+
+
+STATS = {"truth_table": 0, "dpll": 0, "no_verdict": 0}
+
+
+def _count(kind):
+    STATS[kind] += 1
+    NOTES[1] = "satisfiability verdicts of the oracle: {}".format(dict(STATS))
 
 
 def satisfiable(clauses, nvars):
     """True/False/None"""
     if nvars <= TT_VARS:
+        _count("truth_table")
         for alpha in common.assignments(nvars):
             if common.cnf_holds(clauses, alpha):
                 return True
         return False
     if nvars <= DPLL_VARS:
-        return dpll(clauses, nvars, DPLL_BUDGET)
+        r = dpll(clauses, nvars, DPLL_BUDGET)[0]
+        _count("dpll" if r is not None else "no_verdict")
+        return r
+    _count("no_verdict")
     return None
 
 
@@ -155,13 +173,19 @@ def diff_axioms(got, want):
 
 
 def model_of(clauses, nvars):
-    """some satisfying assignment (list of true variables) by truth table, for the failure report"""
-    if nvars > 16:
+    """some satisfying assignment (list of true variables), for the failure report; re-checked"""
+    if nvars <= TT_VARS:
+        for alpha in common.assignments(nvars):
+            if common.cnf_holds(clauses, alpha):
+                return [i for i in range(1, nvars + 1) if alpha[i]]
         return None
-    for alpha in common.assignments(nvars):
-        if common.cnf_holds(clauses, alpha):
-            return [i for i in range(1, nvars + 1) if alpha[i]]
-    return None
+    ok_, model = dpll(clauses, nvars, DPLL_BUDGET)
+    if not ok_:
+        return None
+    alpha = [False] * (nvars + 1)
+    for v in model:
+        alpha[v] = True
+    return model if common.cnf_holds(clauses, alpha) else None
 
 
 # ------------------------------------------------------------------ documented axioms
@@ -349,17 +373,17 @@ def ordering_oracle(state, n, edges, total, smart, plant, knuth):
         if r:
             return r
         labels = list(F.all_variable_labels())
-        r = diff_axioms(label_sets(clauses, labels), ordering_axioms(n, nbrs, total, smart, plant, knuth))
-        if r:
-            return r
+        bad = diff_axioms(label_sets(clauses, labels), ordering_axioms(n, nbrs, total, smart, plant, knuth)) or {}
         nv = want_nvars
         if n == 0:
-            return None
+            return bad or None
         if not plant:
             s = satisfiable(clauses, nv)
             if s is True:
-                return {"documented_contradiction_is_satisfiable": True, "model": model_of(clauses, nv)}
-            return None
+                bad.update({"documented_contradiction_is_satisfiable": True, "model": model_of(clauses, nv)})
+            return bad or None
+        if bad:
+            return bad
         # planted: sat <=> a linear order with the single allowed minimum exists
         if n <= 7:
             s = satisfiable(clauses, nv)
@@ -402,15 +426,13 @@ def dag_oracle(state, kind, n, edges, avail=None, want_nvars=None):
         preds, succs = pred_succ(n, edges)
         labels = list(F.all_variable_labels())
         want = pebbling_axioms(n, preds, succs) if kind == "peb" else stone_axioms(n, preds, succs, avail)
-        r = diff_axioms(label_sets(clauses, labels), want)
-        if r:
-            return r
+        bad = diff_axioms(label_sets(clauses, labels), want) or {}
         if n == 0:
-            return None
+            return bad or None
         s = satisfiable(clauses, want_nvars)
         if s is True:
-            return {"documented_contradiction_is_satisfiable": True, "model": model_of(clauses, want_nvars)}
-        return None
+            bad.update({"documented_contradiction_is_satisfiable": True, "model": model_of(clauses, want_nvars)})
+        return bad or None
     return oracle
 
 
@@ -640,9 +662,9 @@ def cases(ctx):
         if n <= 4:
             for f in main_flags[:4]:
                 infos.append(("o_gop", dict(n=n, edges=e, opb=True, **f)))
-    reps = 60 if not thorough else 900
+    reps = 60 if not thorough else 2500
     for _ in range(reps):
-        n = rng.choice([2, 3, 3, 4, 4, 5, 5, 6, 6, 7])
+        n = rng.choice([2, 3, 3, 4, 4, 5, 5, 6, 6, 7] + ([8, 9] if thorough else []))
         e = g_random(rng, n, rng.choice([0.3, 0.5, 0.8]))
         if rng.random() < 0.3:
             e = shuffled(rng, [(v, u) if rng.random() < .5 else (u, v) for u, v in e])   # insertion order / orientation
@@ -664,8 +686,8 @@ def cases(ctx):
         dags.append(d_tree(3))
         dags.append((30, g_path(30)))
     rdags = []
-    for _ in range(25 if not thorough else 300):
-        n = rng.choice([2, 3, 4, 5, 6, 7, 8, 9, 10])
+    for _ in range(25 if not thorough else 600):
+        n = rng.choice([2, 3, 4, 5, 6, 7, 8, 9, 10] + ([12, 15] if thorough else []))
         rdags.append((n, d_random(rng, n, rng.choice([0.2, 0.4, 0.7]))))
     bad = [(2, [(2, 1)]), (3, [(1, 2), (3, 2)]), (2, [(1, 1)]), (3, [(1, 2), (2, 3), (3, 1)]), (1, [(1, 1)])]
 
@@ -705,7 +727,7 @@ def cases(ctx):
         out.append([(v, ((v - 1) % r) + 1) for v in range(1, n + 1)] if r else [])       # one stone per vertex
         out.append(shuffled(rng, [(v, j) for v, j in full if (v + j) % 2 == 0 or j == 1]))
         return out
-    for n, e in dags + rdags[: (10 if not thorough else 120)]:
+    for n, e in dags + rdags[: (10 if not thorough else 250)]:
         if n > 8:
             continue
         for r in (1, 2, 3, 4):
